@@ -315,9 +315,28 @@ Proof.
   - subst O. pose proof (len_rows_upto emit inv L R I HI). nia.
 Qed.
 
+(* merge state: O = rows_upto I; inner state: O = rows_upto (I+ii) ++ the first jj pairs of row I+ii,
+   whose full row is the block column R[J..J+jm) *)
+Lemma Abs_prefix_Gen : forall I J sb O, AbsGen I J sb O -> 0 <= I <= len L -> 0 <= J <= len R ->
+  exists rest, join_spec emit inv L R = O ++ rest.
+Proof.
+  intros I J sb O (_ & _ & Hfront & HO) HI HJ.
+  destruct (s_inner sb).
+  - destruct HO as (Hii & Hjj & Him & Hjm & HrunL & HrunR & HendL & HendR & ->).
+    set (ii := s_ii sb) in *. set (jj := s_jj sb) in *. set (im := s_iimax sb) in *. set (jm := s_jjmax sb) in *.
+    assert (Hrow : row emit inv R (I + ii) (nthZ L (I + ii)) = map (fun j => (I + ii, j)) (seqZ J jm)).
+    { rewrite (HrunL (I + ii)) by lia. apply row_block; try lia; try assumption.
+      intros j' Hj'. apply Hfront; lia. }
+    apply (rows_row_prefix emit inv L R (I + ii) _ (map (fun j => (I + ii, j)) (seqZ (J + jj) (jm - jj)))); [lia|].
+    rewrite Hrow, <- map_app. f_equal. unfold seqZ. rewrite <- map_app. f_equal.
+    replace (Z.to_nat jm) with (Z.to_nat jj + Z.to_nat (jm - jj))%nat by lia.
+    rewrite seq_app. f_equal. f_equal. lia.
+  - subst O. apply rows_upto_prefix. exact HI.
+Qed.
+
 Definition KindOK_Gen : KindOK KGen emit L R inv cs.
 Proof.
-  refine (mkKindOK KGen emit L R inv cs AbsGen LocGen _ _ Abs_len_Gen kstep_ok_Gen Abs_final_Gen).
+  refine (mkKindOK KGen emit L R inv cs AbsGen LocGen _ _ Abs_len_Gen kstep_ok_Gen Abs_final_Gen Abs_prefix_Gen).
   - intros s _ _ _. exact Logic.I.
   - unfold AbsGen. simp_st. pose proof (len_nonneg L). pose proof (len_nonneg R).
     splits; try lia; try reflexivity.
